@@ -439,6 +439,19 @@ def run_columns(ctx):
 def replay(case):
     env()
     d, op = case['dialect'], case['op']
+    if 'column' in case:
+        e = cols_env()
+        a = dec(case['arg'])
+        cls = dict(e['classes'])[case['column']]
+        m = e['ids'][case['column']]
+        try:
+            got = set(m[r[0]] for r in cls._connection.queryAll(
+                cls._connection.sqlrepr(cls.select(build(op, cls.q.c, a)).queryForSelect().newItems([cls.q.id]))))
+        except Exception as ex:
+            got = 'error:%s' % sqlo.exc_name(ex)
+        want = set(r for r in m.values() if py_pred(op, a, r, True))
+        return got == want, 'column declared %s: %s(%r) selects %r\nliterally: %r' % (
+            case['column'], op, a, got if isinstance(got, str) else sorted(got), sorted(want))
     a, row = dec(case.get('minimal', case['arg'])), dec(case.get('minimal_row', case['row']))
     clause = impl_clause(op, a, d)
     if d == 'sqlite':
